@@ -1,6 +1,7 @@
 // C07 digests vs libcrypto, C08 HMAC / tag layout / tag comparison.
 #include "ctx.hpp"
 #include <algorithm>
+#include <array>
 #include <atomic>
 #include <thread>
 #include "hashmaster.h"
@@ -450,6 +451,52 @@ void run_C08(Ctx &cx) {
       prev = hm;
     }
     cx.rep.dist("class", vh::tuple_hash({4242, rep}));
+  }
+  // (1c) independent hmac objects used at the same time on several threads (own objects, own streams, own messages)
+  for (int round = 0; round < (cx.thorough ? 36 : 9); round++) {
+    if (!cx.take()) continue;
+    vh::Rng r = cx.case_rng();
+    int hm = round % 3, NT = 2 + (int)r.below(5);
+    const int NM = 16, ITER = cx.thorough ? 800 : 250;
+    std::vector<std::vector<bytes>> msgs(NT), want(NT);
+    std::vector<std::array<uint8_t, 16>> keys(NT);
+    for (int t = 0; t < NT; t++) {
+      r.fill(keys[t].data(), 16);
+      for (int q = 0; q < NM; q++) {
+        static const size_t lens[] = {0, 1, 55, 56, 63, 64, 65, 119, 120, 200};
+        size_t n = r.chance(60) ? lens[r.below(10)] : (size_t)r.below(600);
+        msgs[t].push_back(r.bytes_(n));
+        want[t].push_back(ref::hmac(hm, keys[t].data(), 16, msgs[t].back().data(), n));
+      }
+    }
+    vh::J j;
+    j.num("hmode", hm).num("threads", NT).num("iterations", ITER).str("rng", std::to_string(vh::mix(cx.seed, (uint64_t)cx.idx)));
+    std::string desc = j.done();
+    cx.begin(desc);
+    std::atomic<int> ready{0};
+    std::atomic<long> wrong{0}, rejected{0}, done{0};
+    std::vector<std::thread> th;
+    for (int t = 0; t < NT; t++)
+      th.emplace_back([&, t]() {
+        ready++;
+        while (ready.load() < NT) {}
+        for (int it = 0; it < ITER; it++) {
+          int q = (it * 5 + t) % NM;
+          if (it % 3 == 2) { if (!real_cmp(hm, keys[t].data(), msgs[t][q], 0, want[t][q])) rejected++; }
+          else if (real_hmac(hm, keys[t].data(), msgs[t][q], 0) != want[t][q]) wrong++;
+          done++;
+        }
+      });
+    for (auto &x : th) x.join();
+    cx.rep.count("hmacs_compared", done.load());
+    cx.rep.count("hmacs_on_concurrent_threads", done.load());
+    if (wrong.load() || rejected.load()) {
+      static const char *hn[] = {"sha1", "md5", "sha256"};
+      vh::J d;
+      d.num("wrong_tags", wrong.load()).num("right_tags_rejected", rejected.load()).num("of", done.load()).num("threads", NT);
+      cx.rep.violation(std::string("C08|hmac-mismatch|") + hn[hm] + "|concurrent-independent-objects", "HMACs computed at the same time by independent hmac objects on several threads differ from RFC 2104", d.done());
+    } else
+      cx.rep.dist("class", vh::tuple_hash({4343, hm, NT}));
   }
   // (2) file level: tag position, range and zero fill on generated files, all T
   const size_t c = VH_CHUNK;
